@@ -134,6 +134,7 @@ pub fn run_random(tr: &mut Trace, run: u64, seed: u64, prof: Profile) -> RunStat
     let send_burst = *r.pick(&[1u64, 2, 5, 20]);
     let send_prob = *r.pick(&[5u64, 20, 50, 90]);
     let both_dirs = r.chance(1, 2) || ideal;
+    let lead_sweeps = (prof == Profile::Ideal || prof == Profile::Mixed) && r.chance(1, 4);
     let lazy_reader = r.chance(1, 6); // application that calls receive() rarely
     let log_steps = prof == Profile::Rate || std::env::var("UVH_LOG_STEPS").is_ok();
 
@@ -236,6 +237,22 @@ pub fn run_random(tr: &mut Trace, run: u64, seed: u64, prof: Profile) -> RunStat
                     let mode = pick_mode(&mut r, weights);
                     p.send(tr, e, ch, mode, len);
                     st.sent += 1;
+                }
+                // lead sweep: one Reliable packet followed by a long run of tiny packets of the other modes, so that the
+                // distance to the latest Reliable packet (the parent leads in the datagram headers) crosses the limits of
+                // the header encodings (127 / 128 for the window lead, 255 / 256 for the channel lead of the 6-byte header)
+                if lead_sweeps && pw >= 256 && r.chance(1, 12) {
+                    let ch = r.below(nch) as u8;
+                    p.send(tr, e, ch, SendMode::Reliable, r.below(40) as usize);
+                    st.sent += 1;
+                    let k = *r.pick(&[120u64, 126, 127, 128, 129, 135, 254, 255, 256, 257, 262]);
+                    let same_ch = r.chance(2, 3);
+                    for _ in 0..k {
+                        let c = if same_ch { ch } else { r.below(nch) as u8 };
+                        let m = *r.pick(&[SendMode::Unreliable, SendMode::Unreliable, SendMode::Persistent]);
+                        p.send(tr, e, c, m, r.below(60) as usize);
+                        st.sent += 1;
+                    }
                 }
             }
             let receive = !lazy_reader || round % 17 == 0;
